@@ -3,6 +3,7 @@ package parser
 import (
 	"fmt"
 	"go/ast"
+	goparser "go/parser"
 	"go/token"
 	"go/types"
 	"regexp"
@@ -129,6 +130,9 @@ func (p *Parser) parseNotationInComments(notations []*ast.Comment, validOps map[
 				return logger.Errorf("%v: needs <dst> <literal> args", p.fset.Position(n.Pos()))
 			}
 			m = reLiteral.FindStringSubmatch(m[2])
+			if _, err := goparser.ParseExpr(m[1]); err != nil {
+				return logger.Errorf("%v: <literal> is not a valid expression", p.fset.Position(n.Pos()))
+			}
 			setter := option.NewLiteralSetter(args[0], m[1], n.Pos())
 			opts.Literals = append(opts.Literals, setter)
 		case "preprocess":
